@@ -10,6 +10,12 @@ CHECKS = {
         'snapshot.Z80 by differential execution every run; register/state/RAM round trips of both formats and an independent '
         'decoder are exploration on the real code.',
    note=TB + 'hand model Model/Z80Rle.lean tied by correspondence; zlib trusted; header layouts explored, not proved', ref='§8 C09'),
+ 'C18': dict(cat='proof', technique='Lean 4 theorems (induction over chunk lists / row-loop state machine) + model/implementation correspondence + e2e word-sequence extraction',
+   text='32 theorems: faithful model of skoolkit.wrap (textwrap) — words preserved in order exactly once, width bound, greediness, no empty line, for all texts and widths; '
+        'AsmWriter.print_instructions row loop equals a declarative layout (every instruction/comment line once, in order, in its group; warning exactly for over-wide rows); '
+        'brace span rules. Two genuine defects are proved as negations (C18_full_false, C18_ctl_full_false) and listed as known findings. '
+        'skool2html/sna2skool/#TABLE/#LIST paths are e2e exploration.',
+   note=TB + 'hand models Model/Wrap, AsmRows, Braces tied by correspondence (18k ops/run); CPython textwrap/str.format modelled, not verified', ref='§8 C18'),
 }
 NA = {}
 def main():
